@@ -133,7 +133,7 @@ def gen_case(rng, tier):
         if not (can_omit and rng.random() < 0.15):
             args["pers_range"] = gen_range(rng, p, sc)
         ops.append({"inst": k, "op": "ctor", "args": args})
-    n = rng.randint(0, 11)
+    n = rng.randint(0, 11 if tier == "quick" else 30)
     for _ in range(n):
         k = rng.randrange(K)
         kind = rng.choice(("birth", "pers", "pixel", "pixel", "fit", "re-birth", "re-pers", "birth", "pers"))
